@@ -17,6 +17,7 @@ import traceback
 from . import symx
 
 _FN_CACHE = {}
+_STOP = None  # shared array (one flag per job): set by the parent once a job has produced enough counterexamples
 MAX_VIOL_PER_JOB = int(os.environ.get("VERIF_MAX_VIOL_PER_JOB", "2"))
 
 
@@ -39,6 +40,10 @@ def _work(task):
         n = 0
         seen_funcs = set()
         while stack and n < chunk:
+            if _STOP is not None and job.get("_idx") is not None and _STOP[job["_idx"]]:
+                stack = []
+                out["stopped"] = True
+                break
             pre = stack.pop()
             if profile and n == 0:
                 def prof(frame, event, arg):
@@ -97,9 +102,32 @@ def run_jobs(jobs, nproc=None, chunk=8, max_paths_per_job=200000, on_record=None
                 break
             _absorb(_work(pending.pop()), res, by_id, seen_reg, pending, chunk, max_paths_per_job, on_record)
         return res
+    # Workers are forked processes; a worker that dies (z3 crash, out of memory) or a task that exceeds its budget must not
+    # hang the run: tasks are tracked with submission times, a broken pool is rebuilt and its in-flight tasks are retried
+    # once one by one; what fails again is recorded as a harness error (never as success).
+    from concurrent.futures import ProcessPoolExecutor, wait, FIRST_COMPLETED
+    from concurrent.futures.process import BrokenProcessPool
+
+    global _STOP
     ctx = mp.get_context("fork")
-    with ctx.Pool(nproc, maxtasksperchild=200) as pool:
-        inflight = []
+    _STOP = ctx.Array("i", len(jobs) + 1, lock=False)
+    for i, j in enumerate(jobs):
+        j["_idx"] = i
+    task_budget = float(os.environ.get("VERIF_TASK_BUDGET_S", "0") or 0) or None
+    retried = set()
+
+    def budget_of(t):
+        fn_opts = None
+        try:
+            fn_opts = _get_fn(t[0])[1]
+        except Exception:
+            pass
+        per_path = float((fn_opts or {}).get("path_budget_s", 300))
+        return task_budget or (per_path * max(1, t[3]) + 120)
+
+    pool = ProcessPoolExecutor(nproc, mp_context=ctx)
+    inflight = {}  # future -> (task, t_submit)
+    try:
         while pending or inflight:
             if deadline and time.time() > deadline:
                 for t in pending:
@@ -110,15 +138,67 @@ def run_jobs(jobs, nproc=None, chunk=8, max_paths_per_job=200000, on_record=None
                 if res[t[0]["id"]]["nviol"] >= MAX_VIOL_PER_JOB:
                     res[t[0]["id"]]["stopped"] = True  # enough counterexamples from this job: do not explore it further
                     continue
-                inflight.append(pool.apply_async(_work, (t,)))
-            done = [a for a in inflight if a.ready()]
-            if not done:
-                time.sleep(0.01)
+                try:
+                    inflight[pool.submit(_work, t)] = (t, time.time())
+                except BrokenProcessPool:
+                    pending.append(t)
+                    pool.shutdown(wait=False, cancel_futures=True)
+                    pool = ProcessPoolExecutor(nproc, mp_context=ctx)
+            if not inflight:
                 continue
-            for a in done:
-                inflight.remove(a)
-                _absorb(a.get(), res, by_id, seen_reg, pending, chunk, max_paths_per_job, on_record)
+            done, _ = wait(list(inflight), timeout=1.0, return_when=FIRST_COMPLETED)
+            broken = False
+            for f in done:
+                t, _t0 = inflight.pop(f)
+                try:
+                    _absorb(f.result(), res, by_id, seen_reg, pending, chunk, max_paths_per_job, on_record)
+                except BrokenProcessPool:
+                    broken = True
+                    _lost(t, res, pending, retried, "worker process died")
+                except Exception as e:  # unpicklable result etc.
+                    res[t[0]["id"]]["errors"].append(f"task failed: {e!r}"[:500])
+            now = time.time()
+            for f, (t, t0) in list(inflight.items()):
+                if now - t0 > budget_of(t):
+                    inflight.pop(f)
+                    f.cancel()
+                    broken = True
+                    res[t[0]["id"]]["errors"].append(f"task exceeded its time budget ({int(now - t0)} s): prefixes {str(t[2])[:120]}")
+                    res[t[0]["id"]]["truncated"] = True
+            if broken:
+                # everything still in flight on a broken / stuck pool is lost as well: kill the workers and start over
+                for f, (t, t0) in list(inflight.items()):
+                    _lost(t, res, pending, retried, "pool restarted")
+                inflight.clear()
+                for p in list(getattr(pool, "_processes", {}).values()):
+                    try:
+                        p.kill()
+                    except Exception:
+                        pass
+                pool.shutdown(wait=False, cancel_futures=True)
+                pool = ProcessPoolExecutor(nproc, mp_context=ctx)
+    finally:
+        for p in list(getattr(pool, "_processes", {}).values()):
+            try:
+                p.kill()
+            except Exception:
+                pass
+        pool.shutdown(wait=False, cancel_futures=True)
     return res
+
+
+def _lost(t, res, pending, retried, why):
+    """A task whose worker vanished: retry it once split into single prefixes, then give up on it (harness error)."""
+    key = (t[0]["id"], repr(sorted(t[1].items(), key=str)), repr(t[2]))
+    if key in retried:
+        res[t[0]["id"]]["errors"].append(f"{why}; task lost after retry: pins={t[1]} prefixes={str(t[2])[:160]}")
+        res[t[0]["id"]]["truncated"] = True
+        return
+    retried.add(key)
+    for pre in t[2]:
+        one = (t[0], t[1], [pre], 1, False)
+        retried.add((t[0]["id"], repr(sorted(t[1].items(), key=str)), repr([pre])))
+        pending.append(one)
 
 
 def _absorb(out, res, by_id, seen_reg, pending, chunk, max_paths, on_record):
@@ -131,6 +211,8 @@ def _absorb(out, res, by_id, seen_reg, pending, chunk, max_paths, on_record):
         r["npaths"] += 1
         if rec["status"] == "violation" and not _is_known(rec):
             r["nviol"] += 1
+            if r["nviol"] >= MAX_VIOL_PER_JOB and _STOP is not None and job.get("_idx") is not None:
+                _STOP[job["_idx"]] = 1
         if on_record:
             on_record(jid, rec)
         r["records"].append(_slim(rec))
